@@ -47,6 +47,11 @@ CLAIMED = {
    "Every transaction with 0..3 postings (4 thorough) over kinds ordinary/(virtual)/[balanced] x amount present or not x commodity assignment over {$ left, EUR right, quoted \"x y\"} x per-commodity residual targets {0, 1, 0.5, 0.000001, -1234567.25} (the last cost-free posting of each commodity group is solved for the target) x no cost or one unit/total cost in another commodity with quantity in {2, 0.5, 1.25} is opened through the wire seam; the published MULTIPLE_INFERRED / UNBALANCED codes and the residuals parsed back from the message must equal math/big.Rat sums over ordinary and bracketed postings. For every transaction of <= 3 postings each amount is respelled (decimal comma, trailing zeros and mark, comma/point/space groups, exponent, sign before commodity, commodity on the other side, wide and tab separators) and the verdict must not change.",
    "Transactions on which hledger's rule and the exact-sum rule disagree (implicit two-commodity price, residual below written precision) are dropped and counted, as the property demands. Quantities outside the value alphabet and >4 postings are not covered.",
    "DESIGN.md §4.3, §5 C02"),
+ "C07": ("exploration",
+   "bounded-exhaustive enumeration of (journal, entry, damage) triples; differential comparison of the parser's output and the published diagnostics before and after the damage",
+   "Three-entry journals rendered from G (13 entry templates: 5 transactions incl. status/code/payee|note/tags/virtual/cost/assertion and an unbalanced one, account, commodity inline and with format sub-line, include, P, D, comment lines; neighbours from 4 templates quick, all 13 thorough; 1 and 0 blank lines between entries) with one entry damaged by every truncation at every column, every insertion of ( ) [ ] \" @ = ; | * - 0 : TAB at every column, every replacement of each byte by 8 (quick) / 32 (thorough) alphabet bytes incl. a truncated UTF-8 lead and non-BMP, and every deleted / duplicated / swapped line. Every other entry must be present in Parse(damaged) with a byte-identical dump of all fields and all positions shifted by exactly the inserted/removed lines, keep exactly its own published diagnostics, and every syntax error must lie on a line of the damaged entry.",
+   "With 0 blank lines, damages that make the entry's first line an indented (continuation) line or remove it are skipped: by the grammar they move the entry into its predecessor. Damage spanning two entries and entries that depend on each other by design (Y, declarations) are not covered.",
+   "DESIGN.md §5 C07"),
 }
 
 NOT_YET = "check not built yet in this session (work in progress; see DESIGN.md §5 for the plan)"
